@@ -148,6 +148,10 @@ def generate(unit):
     """Fill the template of `unit` from /repo. Returns dict(text, functions, rules, labels...)."""
     tpath = os.path.join(VERUS_DIR, unit, "unit.rs")
     tmpl = read(tpath).split("\n")
+    # unit-wide world-threading rules: `//@@default-rule <ID> s/../../` lines apply (any number
+    # of matches) to every extracted fn whose replacement signature takes `Tracked(w)`, after the
+    # block's own rules, so that a call the block did not foresee is threaded too
+    default_rules = [l.strip()[len("//@@default-rule"):].strip() for l in tmpl if l.strip().startswith("//@@default-rule")]
     out = []
     functions = []
     counts = {}
@@ -221,6 +225,10 @@ def generate(unit):
             body = src[b:end]
             for r in blk["rules"]:
                 body = apply_rule(body, r, counts)
+            if blk["sig"] and "Tracked(w)" in blk["sig"]:
+                for r in default_rules:
+                    rid, rest = r.split(None, 1)
+                    body = apply_rule(body, f"{rid} * {rest}", counts)
             bmask = rscan.code_mask(body)
             lps = rscan.loops(body, bmask)
             if blk["loops"] is not None and len(lps) != blk["loops"]:
